@@ -408,6 +408,24 @@ Example ex_wild_layout : forallb (static_okb ex_file) wild_ts0 = true /\
     map ts_offsets ts' = [[109; 114; 114; 120]; [105; 107; 124]].
 Proof. split; [vm_compute; reflexivity|]. split; [vm_compute; reflexivity|]. eexists. vm_compute. split; reflexivity. Qed.
 
+(* ... so C10_layout_total applies to it as it stands: every chunk of both tracks is placed, the shared bytes twice *)
+Theorem C10_layout_any_order : exists ts' ranges first',
+  fill_loop (fill_fuel wild_ts0) wild_ts0 [] 0 0 = Ok (ts', ranges, first') /\
+  Forall (fun t => lenN (ts_offsets t) = ts_last_chunk t /\
+                   forall c, 1 <= c <= ts_last_chunk t ->
+                             exists no, nthN (ts_offsets t) (c - 1) = Some no /\
+                                        chunk_placed ex_file (out_bytes ex_file ranges) first' t c no) ts'.
+Proof.
+  destruct ex_wild_layout as [Hs [Hb _]].
+  assert (Hst : Forall (static_ok ex_file) wild_ts0).
+  { apply Forall_forall. intros t Ht. apply static_okb_ok. rewrite forallb_forall in Hs. apply Hs, Ht. }
+  destruct (layout_total ex_file wild_ts0 Hst) as [ts' [ranges [first' [Hrun [_ Hall]]]]].
+  - repeat constructor.
+  - apply N.ltb_lt. exact Hb.
+  - exists ts', ranges, first'. split; [exact Hrun|]. revert Hall. apply Forall_impl. intros t [_ [_ [A B]]]. split; assumption.
+Qed.
+Print Assumptions C10_layout_any_order.
+
 (* findEndTime chooses the FIRST track whose handler is "vide", else the FIRST whose handler is "soun" *)
 Theorem C10_reference_track : forall hs ref, find_sync_trak hs = Some ref -> ref_choice hs ref /\ In ref (map th_trak hs).
 Proof. exact find_sync_trak_choice. Qed.
